@@ -1,4 +1,5 @@
 import UncModel.Lemmas.CliLemmas
+import UncModel.Gen.LogArgs
 /-!
 # C10 — output depends only on (bytes, language, configuration, file name)
 
@@ -206,5 +207,10 @@ theorem C10_args_witnesses :
     (parseArgs [c!"uncrustify", c!"-c", c!"my.cfg", c!"--prefix=out", c!"-lCPP", c!"a.c"]).pfx = some c!"out" ∧
     (parseArgs [c!"uncrustify", c!"-c", c!"my.cfg", c!"--prefix=out", c!"-lCPP", c!"a.c"]).lang = some c!"CPP" := by
   decide +kernel
+
+/-- frame condition behind "observers are inert": `LOG_FMT(sev, …)` evaluates its arguments only when the severity is
+    switched on (-L); no argument of any LOG_FMT in the current sources contains `++`, `--` or an assignment
+    (table regenerated by translators/t_log.py on every run) -/
+theorem C10_log_args_pure : Gen.logSideEffects = [] ∧ Gen.logCalls > 1000 := by decide
 
 end Unc
